@@ -54,6 +54,7 @@ def check(model: Model, report: Report) -> None:
         "L7": "fixed lexemes (operators, keywords, punctuation) produce their tokens",
         "L9": "blank space is skipped wherever the grammar allows it",
         "G": "valid token shapes (grouping, negation, comparisons, selections, slices) are accepted by the interpreted parser",
+        "GRID": "every sequence of filter tokens (<= 4 quick / 5 thorough, balanced parentheses) and of bracketed-selection tokens that the RFC grammar and typing rules accept is accepted by the interpreted parser",
         "L10": "function arguments may start with every token a filter expression may start with",
     }.items():
         report.rule(f"R03.{k}", v)
@@ -66,4 +67,7 @@ def check(model: Model, report: Report) -> None:
     from . import _shapes
 
     _shapes.check_shapes(model, report, "R03.G", want_valid=True)
+    from . import _tokgrid
+
+    _tokgrid.check_grid(model, report, "R03.GRID", want_valid=True)
     report.extra["explanation"] = "C03: regular-language inclusion RFC terminal ⊆ accepted lexemes, by automata product over an interval alphabet, per token position; lexer states analysed as one generic iteration."
